@@ -296,10 +296,18 @@ func ruleC10HandleContext(r *Run) {
 	r.Floor(rule, 2)
 	hc := w.Fn("rux", "Router.HandleContext")
 	reset := w.Fn("rux", "Context.Reset")
-	disp := w.Fn("rux", "Router.handleHTTPRequest")
+	// whatever HandleContext hands the context to for dispatch: a module function that reaches the chain executor
+	cg := w.BuildCG()
+	next := w.Fn("rux", "Context.Next")
 	resets := callsToFn(hc, reset)
-	disps := callsToFn(hc, disp)
-	r.Exists(rule, "HandleContext:dispatch", hc.Pos(), len(disps) >= 1, "HandleContext dispatches through handleHTTPRequest")
+	disps := callsIn(hc, func(c ssa.CallInstruction) bool {
+		if _, ok := c.(*ssa.Call); !ok {
+			return false
+		}
+		sc := staticCallee(c)
+		return sc != nil && w.InModule(sc) && sc != reset && cg.Reach(sc)[next]
+	})
+	r.Exists(rule, "HandleContext:dispatch", hc.Pos(), len(disps) >= 1, "HandleContext hands the context to the dispatcher")
 	for i, d := range disps {
 		ok := false
 		for _, rs := range resets {
